@@ -183,6 +183,42 @@ def run(chk):
                                  {"plain": p.text, "rewritten": q.text, "level": level, "rule": rule, "initial": {"x": st["x"], "y": st["y"]},
                                   "plain_result": coexec.describe(lay[3], x), "rewritten_result": coexec.describe(lay[3], y)})
                         break
+    # ---- idiom sweep: the assignment-form rules on every kind of assignable operand x operator x operand ----
+    DECL = "unsigned char v0, v1; unsigned short s0, s1; unsigned char a0[4]; unsigned short w0[4];\n"
+    LVS = [("v0", 8), ("s0", 16), ("a0[X]", 8), ("a0[Y]", 8), ("a0[2]", 8), ("w0[X]", 16), ("w0[Y]", 16), ("w0[1]", 16), ("X", 8), ("Y", 8)]
+    pairs = []
+    for lv, bits in LVS:
+        for op in ["+", "-", "&", "|", "^"]:
+            for e in (["1", "255", "v1"] if bits == 8 else ["1", "255", "300", "33025", "v1", "s1"]):
+                pairs.append(("opassign", "%s %s= %s;" % (lv, op, e), "%s = %s %s %s;" % (lv, lv, op, e)))
+        pairs.append(("incr", "++%s;" % lv, "%s += 1;" % lv))
+        pairs.append(("incr", "%s++;" % lv, "%s += 1;" % lv))
+        pairs.append(("incr", "--%s;" % lv, "%s -= 1;" % lv))
+        pairs.append(("incr", "%s--;" % lv, "%s -= 1;" % lv))
+    for rule, sa, sb in pairs:
+        pa = DECL + "void main() { %s }\n" % sa
+        pb = DECL + "void main() { %s }\n" % sb
+        for level in (0, 1):
+            a = h.compile(pa, level); b = h.compile(pb, level)
+            chk.count("idiom_" + rule)
+            if a["status"] != "ok" or b["status"] != "ok":
+                chk.count("idiom_one_side_rejected" if a["status"] != b["status"] else "idiom_both_rejected")
+                continue
+            chk.case(key=(pa, pb, level), nontrivial=True)
+            states, lay = coexec.init_states(a, 6, seed=stable_hash(pa))
+            for st in states:                       # keep the index registers inside the arrays
+                st["x"] %= 4; st["y"] %= 4
+            oa, _ = coexec.run_all(m, "c15i", a, states, lay)
+            ob, _ = coexec.run_all(m, "c15i", b, states, lay)
+            if oa is None or ob is None:
+                chk.count("unloadable"); continue
+            for st, x, y in zip(states, oa, ob):
+                chk.count("idiom_runs")
+                if coexec.observable(x, lay[3]) != coexec.observable(y, lay[3]):
+                    chk.fail("rewrite-" + rule + "-idiom", "`%s` and `%s` end in different states at -O%d" % (sa, sb, level),
+                             {"plain": pa, "rewritten": pb, "level": level, "rule": rule, "initial": {"x": st["x"], "y": st["y"]},
+                              "plain_result": coexec.describe(lay[3], x), "rewritten_result": coexec.describe(lay[3], y)})
+                    break
     h.close(); m.close()
     return chk.finish(level="proof", obligations=obligations, trusted_base=TRUSTED,
                       checker_cmd="cd /verif/lean && lake build CV.Props.C15 && lake env lean .lake/audit/C15_audit.lean",
